@@ -301,6 +301,19 @@ class SlotInterp(Interp):
                         raise Undecidable("from_be_bytes of %r" % (b,))
                 w = Word(slots)
                 return w.to_int() if w.is_const() else w
+        m_ = re.search(r"core::num::<impl u64>::(rotate_right|rotate_left)$", c)
+        if m_ and len(args) == 2 and isinstance(args[0], Word) and isinstance(args[1], int):
+            n = args[1] % 64
+            if n % 2:
+                raise Undecidable("rotation of a symbolic word by an odd number of bits")
+            q = (n // 2) % NS
+            sl = list(args[0].s)
+            if m_.group(1) == "rotate_right":
+                sl = sl[NS - q:] + sl[:NS - q] if q else sl      # slot 0 is the most significant: the low slots come round to the top
+            else:
+                sl = sl[q:] + sl[:q]
+            w = Word(sl)
+            return w.to_int() if w.is_const() else w
         if any(isinstance(a, Word) and not a.is_const() for a in args):
             f = self.F.funcs.get(c)
             if f is not None and f.crate in ("ragc_core", "ragc_common") and len(args) == 1:
